@@ -247,7 +247,7 @@ of the Go code) run one after the other ARE the atomic model step, and under the
 theorem (`PodPre` / `UpdPre`) the plan is safe. -/
 theorem handler_sections {s : State} {ev : PodEv} (hg : Good s) (hpre : ev.Pre s) :
     runMicros s (ev.plan s) = step s ev.op ∧ Safe (stat s) ev.id (localOf s (cntOf s) ev.id) (ev.plan s) :=
-  ⟨PodEv.run_plan hg.pods ev (PodEv.wf_of_pre hpre), PodEv.safe hpre⟩
+  ⟨PodEv.run_plan hg.pods ev (PodEv.wf_of_pre hpre), PodEv.safe hg hpre⟩
 
 /-- SCHEDULES, handler level: pod events (add / update / delete, any branch) on DISTINCT pods, each admissible in
 the start state, issued from concurrent goroutines.  Whatever way the separately locked sections of their handlers
